@@ -525,3 +525,196 @@ func c04One(t *testing.T, run *c04Run) {
 		}
 	}
 }
+
+// ---------------------------------------------------------------- records of different sizes
+// TestVerifMixedSizesC04: processes with mappings of different ages record counters whose names have very
+// different lengths, so that one process's record still fits in an earlier page while another's needs a
+// new page.  The layout differs from run to run, so only the layout-independent clauses are judged
+// (CounterFileLite.tla).
+type c04MixRun struct {
+	ID   int   `json:"id"`
+	Seed int64 `json:"seed"`
+	Kill bool  `json:"kill"`
+}
+
+func TestVerifMixedSizesC04(t *testing.T) {
+	defer rt.Flush()
+	var in struct {
+		Runs []c04MixRun `json:"runs"`
+	}
+	if err := rt.In(&in); err != nil {
+		t.Skip(err)
+	}
+	c04InitNames()
+	for i := range in.Runs {
+		c04MixOne(t, &in.Runs[i])
+	}
+}
+
+func c04MixOne(t *testing.T, run *c04MixRun) {
+	dir := t.TempDir()
+	telemetry.Default = telemetry.NewDir(dir)
+	os.MkdirAll(telemetry.Default.LocalDir(), 0777)
+	os.WriteFile(filepath.Join(telemetry.Default.LocalDir(), "weekends"), []byte("2\n"), 0666)
+	now := time.Date(2024, 3, 4, 12, 0, 0, 0, time.UTC)
+	CounterTime = func() time.Time { return now }
+	c03w = &c03World{}
+	memmap, munmap = c03Memmap, c03Munmap
+	defer func() {
+		w0 := c03w
+		c03w = nil
+		w0.release()
+	}()
+	bi := &debug.BuildInfo{GoVersion: "go1.23.0", Path: "example.com/verif/c04", Main: debug.Module{Path: "example.com/verif", Version: "v1.0.0"}}
+	rng := rand.New(rand.NewSource(run.Seed))
+	open1 := func() *file {
+		f := &file{buildInfo: bi}
+		f.rotate1()
+		if f.err != nil || f.current.Raw() == nil {
+			t.Fatalf("setup: %v", f.err)
+		}
+		return f
+	}
+	f0 := open1()
+	path := f0.current.Raw().f.Name()
+	fill := func(k int) {
+		for i := 0; i < k; i++ {
+			c := &Counter{name: fmt.Sprintf("filler-%d-%s", rng.Int63(), strings.Repeat("f", c04NameLen-40)), file: f0}
+			c.Add(1)
+		}
+	}
+	// process A opens while the file has one page; then the file grows to two pages whose second one is almost full;
+	// process B (and C) open afterwards.  A short record still fits in page 2, a long one needs page 3.
+	fill(3)
+	fa := open1()
+	fill(3)
+	fb, fc := open1(), open1()
+	f0.current.Raw().close()
+	long := func(s string) string { return s + strings.Repeat("L", c04NameLen-len(s)) }
+	procs := []struct {
+		name  string
+		f     *file
+		names []string
+	}{
+		{"pA", fa, []string{"shortA", "sh2A"}},
+		{"pB", fb, []string{long("longB-"), "shortB"}},
+		{"pC", fc, []string{"shortC", long("longC-")}},
+	}
+	if rng.Intn(2) == 0 {
+		procs[0].names, procs[2].names = procs[2].names, procs[0].names
+	}
+	s := rt.NewSched()
+	defer s.Close()
+	s.StepTimeout = 5 * time.Second
+	s.Transparent = func(fn, kind string) bool {
+		parts := strings.Split(fn, "<")
+		if parts[0] == "(*Counter).add" {
+			return false
+		}
+		for _, p := range parts {
+			if strings.HasPrefix(p, "(*mappedFile).") {
+				return false
+			}
+		}
+		return true
+	}
+	begun := map[string]int{}
+	ctrs := map[string][]*Counter{}
+	for _, p := range procs {
+		p := p
+		var cs []*Counter
+		for _, n := range p.names {
+			cs = append(cs, &Counter{name: n, file: p.f})
+		}
+		ctrs[p.name] = cs
+		s.Go(p.name, func() {
+			for i, c := range cs {
+				begun[p.names[i]]++
+				c.Add(1)
+			}
+		})
+	}
+	project := func() rt.M {
+		data, err := os.ReadFile(path)
+		if err != nil {
+			return rt.M{"size": -1, "limit": 0, "problems": []string{err.Error()}, "vals": rt.M{}, "begun": rt.M{}}
+		}
+		dec := rt.DecodeV1(data)
+		vals := rt.M{}
+		for n, v := range dec.Counts() {
+			if !strings.HasPrefix(n, "filler-") {
+				vals[n] = int(v)
+			}
+		}
+		bg := rt.M{}
+		for n, v := range begun {
+			bg[n] = v
+		}
+		problems := dec.Problems
+		if problems == nil {
+			problems = []string{}
+		}
+		return rt.M{"size": len(data) / rt.V1Page, "limit": int(dec.Limit), "problems": problems, "vals": vals, "begun": bg}
+	}
+	step := 0
+	emit := func(t string, final bool, surv rt.M) {
+		p := project()
+		p["kind"], p["run"], p["i"], p["t"], p["final"], p["survivors"] = "obs", run.ID, step, t, final, surv
+		rt.Out(p)
+	}
+	emit("init", false, rt.M{})
+	status := "ok"
+	var fault rt.M
+	killed := map[string]bool{}
+	for !s.AllDone() && step < 4000 {
+		rs := s.RunnableTasks()
+		if len(rs) == 0 {
+			status = "deadlock"
+			break
+		}
+		tk := rs[rng.Intn(len(rs))]
+		if run.Kill && rng.Intn(40) == 0 {
+			s.Kill(tk)
+			killed[tk.Name] = true
+			step++
+			emit("kill", false, rt.M{})
+			continue
+		}
+		label, kind := tk.Label, tk.Kind
+		step++
+		ok := s.Step(tk)
+		emit(tk.Name, false, rt.M{})
+		if !ok {
+			status, fault = "hang", rt.M{"task": tk.Name, "label": label, "op": kind}
+			break
+		}
+		if tk.State == rt.Faulted {
+			status, fault = "fault", rt.M{"task": tk.Name, "label": label, "op": kind, "panic": fmt.Sprint(tk.Panic)}
+			break
+		}
+	}
+	surv := rt.M{}
+	pend := rt.M{}
+	if status == "ok" {
+		for _, p := range procs {
+			if killed[p.name] {
+				continue
+			}
+			for i, c := range ctrs[p.name] {
+				if ex := int(c.state.load().extra()); ex > 0 {
+					pend[p.name+":"+p.names[i]] = ex
+				} else {
+					surv[p.names[i]] = 1
+				}
+			}
+		}
+		step++
+		emit("final", true, surv)
+	}
+	rt.Out(rt.M{"kind": "result", "run": run.ID, "status": status, "fault": fault, "steps": step, "pending": pend})
+	for _, f := range []*file{fa, fb, fc} {
+		if m := f.current.Raw(); m != nil {
+			m.close()
+		}
+	}
+}
